@@ -126,14 +126,16 @@ theorem precedence_cli_tests (w : World) (c : Cli) (kvs kvs' : List (Str × Str)
     (h : ∀ k : String, k ≠ "tests" → iniGet kvs k = iniGet kvs' k) :
     run w c (.opts kvs) = run w c (.opts kvs') := by
   unfold run
-  simp only [resolveArgs, hne, hne', Bool.false_eq_true, if_false, mergeIni_congr_tests w.dx c kvs kvs' hc h]
+  simp only [resolveArgs, hne, hne', Bool.false_eq_true, if_false, mergeIni_congr_tests w.dx c kvs kvs' hc h,
+    h "level" (by decide), h "confidence" (by decide)]
 
 theorem precedence_cli_skips (w : World) (c : Cli) (kvs kvs' : List (Str × Str)) (hc : truthyOpt c.skips = true)
     (hne : kvs.isEmpty = false) (hne' : kvs'.isEmpty = false)
     (h : ∀ k : String, k ≠ "skips" → iniGet kvs k = iniGet kvs' k) :
     run w c (.opts kvs) = run w c (.opts kvs') := by
   unfold run
-  simp only [resolveArgs, hne, hne', Bool.false_eq_true, if_false, mergeIni_congr_skips w.dx c kvs kvs' hc h]
+  simp only [resolveArgs, hne, hne', Bool.false_eq_true, if_false, mergeIni_congr_skips w.dx c kvs kvs' hc h,
+    h "level" (by decide), h "confidence" (by decide)]
 
 /-- the three rules of `_log_option_source`: a given command-line value wins; a command-line value
 *equal to the option's default* loses to a non-empty INI value (so `-x <default>` cannot override
@@ -153,17 +155,16 @@ theorem precedence_rules (arg : Str) (ini : Str) (dflt : Str) (ha : arg ≠ []) 
 
 /-! ## Rejection table -/
 
-/-- **Bad files are rejected (partial).** If the config file named by `-c` (or by the INI's
-`configfile`) is unreadable, unparsable, or parses to something that is not a mapping, the run ends
-with a diagnostic and exit status 2 — *under the guard* that the parser result is outside the region
-of the known finding: it is a string or list not mentioning `profiles` (TOML: `tool` is a table and
-`tool.bandit` such a value), and a TOML file is valid UTF-8. -/
-theorem reject_table_partial (w : World) (c : Cli) (ini : IniOutcome) (a : Args) (p : Str)
+/-- **Bad files are rejected.** If the config file named by `-c` (or by the INI's `configfile`)
+is unreadable, unparsable (syntax error or not UTF-8), or parses to something that is not a mapping
+(`None` from an empty file, a scalar, a string, a list; for TOML: `tool` not a table or
+`tool.bandit` not a table), the run ends with a diagnostic and exit status 2 — for **every** parser
+result, never a traceback, never a scan.  (Full strength since /repo d27fc84 + 259b80f.) -/
+theorem reject_table (w : World) (c : Cli) (ini : IniOutcome) (a : Args) (p : Str)
     (hres : resolveArgs w.dx c ini = .ok a) (hp : a.configFile = some p) (hpne : p ≠ [])
-    (hbad : Spec.BadFile (Str.endsWith p ".toml".toList) (w.file p) = true)
-    (hg : Guard (Str.endsWith p ".toml".toList) (w.file p) = true) :
+    (hbad : Spec.BadFile (Str.endsWith p ".toml".toList) (w.file p) = true) :
     ∃ r, run w c ini = .reject r ∧ (r = .unreadable ∨ r = .unparsable ∨ r = .notMapping) := by
-  obtain ⟨r, hr, hcls⟩ := loadConfig_bad w.reg _ (w.file p) hbad hg
+  obtain ⟨r, hr, hcls⟩ := loadConfig_bad w.reg _ (w.file p) hbad
   refine ⟨r, ?_, hcls⟩
   unfold run
   simp only [hres, Outcome.bind_ok, stageLoad_file w a p hp hpne, hr, Outcome.bind_reject]
@@ -199,45 +200,25 @@ theorem reject_contradictory (w : World) (c : Cli) (ini : IniOutcome) (a : Args)
     exact ⟨i, (mem_union _ _ i).2 hi, by simpa using (mem_union _ _ i).2 he⟩
   rw [if_pos this]
 
-/-! ## Counter-examples to the unguarded rejection table (known findings), replayed on the real code -/
+/-! ## Regression instances: the inputs that used to end in a traceback (fixed in /repo) -/
 
-/-- an **empty** YAML config (`None`): `TypeError` traceback instead of exit 2 -/
-theorem NEG_empty_config_traceback :
-    (run (genWorld [("empty.yaml".toList, .parsed .null)]) { genCli with configFile := some "empty.yaml".toList } .absent).crashOf
-      = some .typeError ∧ Spec.BadFile false (.parsed .null) = true := by
-  refine ⟨by decide +kernel, rfl⟩
+/-- the former counter-examples (empty file, scalar, `profiles` string, TOML `tool = 5`,
+non-UTF-8 TOML) are rejections; the harness replays each on the real code -/
+theorem former_witnesses_rejected :
+    (run (genWorld [("empty.yaml".toList, .parsed .null)]) { genCli with configFile := some "empty.yaml".toList } .absent).rejectOf = some .notMapping ∧
+    (run (genWorld [("five.yaml".toList, .parsed (.int 5))]) { genCli with configFile := some "five.yaml".toList } .absent).rejectOf = some .notMapping ∧
+    (run (genWorld [("s.yaml".toList, .parsed (.str "xprofilesx".toList))]) { genCli with configFile := some "s.yaml".toList } .absent).rejectOf = some .notMapping ∧
+    (run (genWorld [("pyproject.toml".toList, .parsed (.map [("tool".toList, .int 5)]))]) { genCli with configFile := some "pyproject.toml".toList } .absent).rejectOf = some .notMapping ∧
+    (run (genWorld [("pyproject.toml".toList, .undecodable)]) { genCli with configFile := some "pyproject.toml".toList } .absent).rejectOf = some .unparsable := by
+  refine ⟨by decide +kernel, by decide +kernel, by decide +kernel, by decide +kernel, by decide +kernel⟩
 
-/-- a **scalar** YAML config (`5`): `TypeError` traceback -/
-theorem NEG_int_config_traceback :
-    (run (genWorld [("five.yaml".toList, .parsed (.int 5))]) { genCli with configFile := some "five.yaml".toList } .absent).crashOf
-      = some .typeError ∧ Spec.BadFile false (.parsed (.int 5)) = true := by
-  refine ⟨by decide +kernel, rfl⟩
-
-/-- a YAML config that is the **string** `xprofilesx` (substring test, then `str["profiles"]`) -/
-theorem NEG_profiles_string_traceback :
-    (run (genWorld [("s.yaml".toList, .parsed (.str "xprofilesx".toList))]) { genCli with configFile := some "s.yaml".toList } .absent).crashOf
-      = some .typeError ∧ Spec.BadFile false (.parsed (.str "xprofilesx".toList)) = true := by
-  refine ⟨by decide +kernel, rfl⟩
-
-/-- `pyproject.toml` with `tool = 5`: `AttributeError` traceback -/
-theorem NEG_toml_tool_not_table_traceback :
-    (run (genWorld [("pyproject.toml".toList, .parsed (.map [("tool".toList, .int 5)]))])
-        { genCli with configFile := some "pyproject.toml".toList } .absent).crashOf = some .attributeError
-    ∧ Spec.BadFile true (.parsed (.map [("tool".toList, .int 5)])) = true := by
-  refine ⟨by decide +kernel, by decide⟩
-
-/-- a TOML config that is not UTF-8: `UnicodeDecodeError` traceback (YAML rejects the same bytes) -/
-theorem NEG_toml_undecodable_traceback :
-    (run (genWorld [("pyproject.toml".toList, .undecodable)]) { genCli with configFile := some "pyproject.toml".toList } .absent).crashOf
-      = some .other
-    ∧ (run (genWorld [("cfg.yaml".toList, .undecodable)]) { genCli with configFile := some "cfg.yaml".toList } .absent).rejectOf
-      = some .unparsable := by
-  refine ⟨by decide +kernel, by decide +kernel⟩
-
-/-- INI `level = 2` with the command line at its default: the scan runs, then `TypeError` -/
-theorem NEG_ini_level_traceback :
-    (run (genWorld []) genCli (.opts [("level".toList, "2".toList)])).crashOf = some .typeError
-    ∧ (run (genWorld []) { genCli with severity := 3 } (.opts [("level".toList, "2".toList)])).isOk = true := by
+/-- **INI numeric options**: `level = 3` in the INI file is the command line counted up to severity 3
+(`-ll`): same thresholds, same selection (since /repo da9ae97) -/
+theorem ini_level_as_cli :
+    (match run (genWorld []) genCli (.opts [("level".toList, "3".toList)]), run (genWorld []) { genCli with severity := 3 } .absent with
+     | .ok a, .ok b => a.severity == b.severity && a.confidence == b.confidence && a.inc == b.inc && a.exc == b.exc
+     | _, _ => false) = true
+    ∧ (run (genWorld []) { genCli with severity := 4 } (.opts [("level".toList, "2".toList)])).isOk = true := by
   refine ⟨by decide +kernel, by decide +kernel⟩
 
 /-! ## Non-vacuity -/
@@ -260,12 +241,12 @@ example :
 example : (run (genWorld []) { genCli with tests := some "B101,B102".toList, skips := some "B102".toList } .absent).rejectOf
     = some .contradictory := by decide +kernel
 
-/-- the guard of `reject_table_partial` is satisfiable by bad files of every class -/
-example : Guard false .unreadable = true ∧ Guard true .syntaxError = true ∧
-    Guard false (.parsed (.list [.str "a".toList])) = true ∧ Spec.BadFile false (.parsed (.list [.str "a".toList])) = true ∧
-    Guard true (.parsed (.map [("tool".toList, .map [("bandit".toList, .str "abc".toList)])])) = true ∧
-    Spec.BadFile true (.parsed (.map [("tool".toList, .map [("bandit".toList, .str "abc".toList)])])) = true := by
-  refine ⟨rfl, rfl, by decide, rfl, by decide, by decide⟩
+/-- `BadFile` holds of bad files of every class and not of ordinary ones -/
+example : Spec.BadFile false .unreadable = true ∧ Spec.BadFile true .syntaxError = true ∧ Spec.BadFile true .undecodable = true ∧
+    Spec.BadFile false (.parsed .null) = true ∧ Spec.BadFile false (.parsed (.list [.str "profiles".toList])) = true ∧
+    Spec.BadFile true (.parsed (.map [("tool".toList, .map [("bandit".toList, .str "abc".toList)])])) = true ∧
+    Spec.BadFile false (.parsed (.map [])) = false ∧ Spec.BadFile true (.parsed (.map [])) = false := by
+  refine ⟨rfl, rfl, rfl, rfl, rfl, by decide, rfl, by decide⟩
 
 /-- a plugin block really changes that plugin's setting (so `settings_local` is not about a no-op) -/
 example : cfgBeq (pluginSetting (Spec.withBlock (.map []) "hardcoded_tmp_directory".toList (.map [("tmp_dirs".toList, .list [.str "/opt".toList])]))
